@@ -6,14 +6,173 @@
 package c05
 
 import (
+	"crypto/sha256"
 	"encoding/json"
+	"fmt"
 	"os"
+	"path/filepath"
 	"runtime"
+	"strings"
 	"testing"
 
+	"github.com/bbva/qed/protocol"
 	"github.com/bbva/qed/verifx/ev"
 	"github.com/bbva/qed/verifx/fx"
+	"github.com/bbva/qed/verifx/nx"
 )
+
+func TestMain(m *testing.M) {
+	if nx.ChildMain() {
+		return
+	}
+	os.Exit(m.Run())
+}
+
+// ---------------------------------------------------------------- conformance of the environment model
+//
+// The BFS replaces hashicorp/raft by its contract to the FSM. Here that contract is checked against
+// the real thing where a single node can show it: EVERY trace over propose(1), propose(2), restart and
+// snapshot (log compaction) up to a depth is run both on the model (one bare replica) and on a REAL
+// server process (real raft, real start-up Restore and log replay, real snapshot store); acknowledged
+// snapshots, version and the three tree tables must be identical after every trace.
+
+func evName(i int) []byte { return []byte(fmt.Sprintf("conformance-event-%d", i)) }
+
+func confTraces(depth int) [][]fx.Event {
+	var out [][]fx.Event
+	var gen func(cur []fx.Event, proposes, restarts, snaps int)
+	gen = func(cur []fx.Event, proposes, restarts, snaps int) {
+		if len(cur) > 0 {
+			out = append(out, append([]fx.Event{}, cur...))
+		}
+		if len(cur) == depth {
+			return
+		}
+		if proposes < 3 {
+			gen(append(cur, fx.Event{Kind: "propose", K: 1}), proposes+1, restarts, snaps)
+			gen(append(cur, fx.Event{Kind: "propose", K: 2}), proposes+1, restarts, snaps)
+		}
+		if restarts < 2 && len(cur) > 0 {
+			gen(append(cur, fx.Event{Kind: "restart", R: 0}), proposes, restarts+1, snaps)
+		}
+		if snaps < 1 && proposes > 0 && cur[len(cur)-1].Kind != "snapshot" {
+			gen(append(cur, fx.Event{Kind: "snapshot", R: 0}), proposes, restarts, snaps+1)
+		}
+	}
+	gen(nil, 0, 0, 0)
+	return out
+}
+
+func conformance(r *ev.Run, depth int) {
+	traces := confTraces(depth)
+	r.Bound("conformance_traces", len(traces))
+	base := os.Getenv("VERIF_SCRATCH_DIR")
+	fx.DigestFn = func(i int) []byte { h := sha256.Sum256(evName(i)); return h[:] }
+	defer func() { fx.DigestFn = nil }()
+	ev.ParallelFor(len(traces), 8, func(ti int) {
+		if !r.Mine(ti) {
+			return
+		}
+		tr := traces[ti]
+		// model
+		c, err := fx.NewCluster(r, 1, 1)
+		if err != nil {
+			panic(err)
+		}
+		defer c.Destroy()
+		// real server
+		db, rf := filepath.Join(base, fmt.Sprintf("conf%d-db", ti)), filepath.Join(base, fmt.Sprintf("conf%d-raft", ti))
+		defer os.RemoveAll(db)
+		defer os.RemoveAll(rf)
+		n, err := nx.Start(db, rf, "VERIF_TRAILING0=1")
+		if err != nil {
+			r.Violation("HARNESS-MISMATCH: a real server does not start: "+err.Error(), nil)
+			return
+		}
+		defer func() { n.Kill() }()
+		mism := func(what string, step int) {
+			r.Violation("HARNESS-MISMATCH: the environment model and a real raft node disagree on "+what, map[string]interface{}{"trace": fx.PathString(tr), "step": step})
+		}
+		events := 0
+		for si, e := range tr {
+			if !c.Step(e) {
+				mism("whether the step is possible", si)
+				return
+			}
+			switch e.Kind {
+			case "propose":
+				var body []byte
+				path := "/events"
+				if e.K == 1 {
+					body, _ = json.Marshal(protocol.Event{Event: evName(events)})
+				} else {
+					var evs [][]byte
+					for j := 0; j < e.K; j++ {
+						evs = append(evs, evName(events+j))
+					}
+					body, _ = json.Marshal(protocol.EventsBulk{Events: evs})
+					path = "/events/bulk"
+				}
+				res, err := n.HTTP("api", "POST", path, body)
+				if err != nil || res.Status != 201 {
+					mism("an insertion (the real server refuses it)", si)
+					return
+				}
+				var got []*protocol.Snapshot
+				if e.K == 1 {
+					var s protocol.Snapshot
+					json.Unmarshal(res.Body, &s)
+					got = []*protocol.Snapshot{&s}
+				} else {
+					json.Unmarshal(res.Body, &got)
+				}
+				for j, s := range got {
+					a := protocol.Snapshot(*c.Acked[events+j])
+					if fmt.Sprint(a) != fmt.Sprint(*s) {
+						mism("the snapshot acknowledged for an insertion", si)
+						return
+					}
+				}
+				events += e.K
+			case "restart":
+				if _, code, _ := n.Close(); code != 0 {
+					mism("a clean stop (the real server exits non-zero)", si)
+					return
+				}
+				n, err = nx.Start(db, rf, "VERIF_TRAILING0=1")
+				if err != nil {
+					mism("a restart (the real server does not come up)", si)
+					return
+				}
+				if b, err := n.Do(nx.Req{Op: "barrier"}); err != nil || b.Err != "" {
+					mism("a restart (the real server does not finish its log replay)", si)
+					return
+				}
+			case "snapshot":
+				if res, err := n.Do(nx.Req{Op: "snapshot"}); err != nil || res.Err != "" {
+					mism("a raft snapshot (the real server fails: "+res.Err+")", si)
+					return
+				}
+			}
+			st, err := n.Do(nx.Req{Op: "state"})
+			if err != nil {
+				mism("liveness (the real server died)", si)
+				return
+			}
+			rep := c.R[0]
+			if st.Version != rep.Node.VerifBalloon().Version() {
+				mism("the version after a step", si)
+				return
+			}
+			if st.Tables != rep.TreeTablesHash() {
+				mism("the stored trees after a step", si)
+				return
+			}
+		}
+		r.Validated(1)
+		r.Outcome("conformance " + strings.Join(strings.Fields(fx.PathString(tr)), " "))
+	})
+}
 
 func replay(t *testing.T, r *ev.Run, replicas, maxRep int, tags map[string]bool) bool {
 	if r.Replay == "" {
@@ -53,7 +212,7 @@ func bounds(r *ev.Run) (fx.Bounds, int, int, int) {
 
 const rule = "explicit-state BFS: a state is a cluster of real RaftNode FSMs (no raft.Raft) over real RocksDB stores; transitions = propose(bulk), deliver(r), restart(r) (clean stop, reopen, start-up Restore, re-delivery of the applied entries), crashBefore(r) (apply aborted immediately before the store write, node dropped, reopen, re-delivery), transfer(r); every transition runs the real Apply/Restore/Query code; after every transition every replica is compared with a fault-free replica at the same applied index (version, FSM state, four table dumps, filled hyper-cache buckets) and every membership (e,q) and incremental (i,j) proof it serves is verified against the snapshots the leader acknowledged; states are de-duplicated on (log, per-replica applied/snapshot index, FSM state, table and cache hashes) with followers interchangeable"
 
-var assume = []string{"environment model = hashicorp/raft's contract to its FSM (in-order delivery of committed entries, start-up Restore + re-delivery, leadership as a label); bound to the implementation by the real-cluster conformance traces (see traces_validated_against_impl)",
+var assume = []string{"environment model = hashicorp/raft's contract to its FSM (in-order delivery of committed entries, start-up Restore + re-delivery, leadership as a label); bound to the implementation by conformance traces: every trace over propose(1|2), restart, snapshot up to depth 4 (6 thorough) is run on the model AND on a real single-node server process (real raft) and acknowledged snapshots, version and tree tables must agree after every step (traces_validated_against_impl); multi-node raft behaviour (follower delivery, leadership) enters through the contract only",
 	"RocksDB's atomic write batch and WAL recovery are trusted base", "de-duplication on observed state assumes a replica's future depends only on its stored tables, FSM state and hyper cache (the history LRU is read-through)"}
 
 func TestC05(t *testing.T) {
@@ -65,8 +224,16 @@ func TestC05(t *testing.T) {
 	if replay(t, r, reps, maxRep, tags) {
 		return
 	}
+	conformance(r, confDepth(r))
 	fx.BFS(r, reps, maxRep, b, depth, tags, runtime.NumCPU())
 	r.Finish()
+}
+
+func confDepth(r *ev.Run) int {
+	if r.Thorough() {
+		return 6
+	}
+	return 4
 }
 
 func TestC06(t *testing.T) {
@@ -78,6 +245,7 @@ func TestC06(t *testing.T) {
 	if replay(t, r, reps, maxRep, tags) {
 		return
 	}
+	conformance(r, confDepth(r))
 	fx.BFS(r, reps, maxRep, b, depth, tags, runtime.NumCPU())
 	r.Finish()
 }
